@@ -42,7 +42,7 @@ for _p, _w in _FAMILY_A.items():
   CLAIMED[_p] = {
     "text": f"Structural necessary conditions only, for {_w}: every launch reachable from the stage binds each schema-named kernel parameter to the same-named Model/Data field (argument-order conformance over all bindings), read-only Data parameters are not written, index spaces are not mixed, batched fields are indexed by the world modulo their own size, no enum member the stage dispatches on lost its handler relative to the confirmed baseline, com-based quantities are shifted about subtree_com[body_rootid[.]] only, quaternions assembled from qpos are normalised before use, plus the property-specific structural clauses named under `technique`. Numerical agreement with MuJoCo is NOT decided (no static argument bounds float results).",
     "note": STATIC_NOTE,
-    "technique": "launch-binding conformance over resolved call sites + index-space typing + batched-index normal form + enum-handler exhaustiveness against a confirmed baseline + reference-offset and com-frame agreement + must-pass-through normalisation of state quaternions, plus per-property clauses (C03 clamp-last, path-sensitive clamp on every return of next_act, gain/bias parameter families; C04 routing tables and contact-slot record completeness; C05 row-class launch order and constraint-row record completeness; C07 cutoff-last, object-type frame families, slot-record permutation, either-order writers commute; C08 RK4 save/restore, advance order, integrator workspaces initialised before partial writes) (R-BIND, R-SORT, R-BATCH, R-DISPATCH, R-REF, R-FRAME, R-NORM.5, R-CLAMP, R-FAMILY, R-SEQ, R-RECORD, R-PAIR, R-LIVE.5/.5b/.7)",
+    "technique": "launch-binding conformance over resolved call sites + index-space typing + batched-index normal form + enum-handler exhaustiveness against a confirmed baseline + reference-offset and com-frame agreement + must-pass-through normalisation of state quaternions, plus per-property clauses (C03 clamp-last, path-sensitive clamp on every return of next_act, gain/bias parameter families; C04 routing tables and contact-slot record completeness; C05 row-class launch order and constraint-row record completeness; C07 cutoff-last, object-type frame families, slot-record permutation, either-order writers commute, tagged-id comparisons pinned to one index space; C08 RK4 save/restore, advance order, integrator workspaces initialised before partial writes) (R-BIND, R-SORT, R-BATCH, R-DISPATCH, R-REF, R-FRAME, R-NORM.5, R-CLAMP, R-FAMILY, R-SEQ, R-RECORD, R-PAIR, R-LIVE.5/.5b/.7)",
     "design_ref": "DESIGN.md section 4 Family A",
   }
 
